@@ -381,7 +381,7 @@ B('SEL-datetime-stop-not-inclusive', ['C04'], 'index.py', 'LocMap.map_slice_args
 B('SEL-inclusive-helper', ['C04'], 'util.py', 'slice_to_inclusive_slice',
   'stop = None if key.stop is None else key.stop + 1 + offset', 'stop = None if key.stop is None else key.stop + offset', 'I.inclusive-stop', 'slice_to_inclusive_slice')
 B('SEL-auto-index-slice-raw', ['C04'], 'index.py', 'Index._loc_to_iloc',
-  '            elif key.__class__ is slice:\n                key = slice_to_inclusive_slice(key) #type: ignore', '            elif key.__class__ is slice:\n                pass', 'I.inclusive-stop', 'Index._loc_to_iloc')
+  '                key = slice_to_inclusive_slice(key) #type: ignore\n            elif isinstance(key, INT_TYPES):', '                pass\n            elif isinstance(key, INT_TYPES):', 'I.inclusive-stop', 'Index._loc_to_iloc')
 B('SEL-get-for-element', ['C04'], 'index.py', 'LocMap.loc_to_iloc',
   '        return label_to_pos[key]', '        return label_to_pos.get(key, 0)', 'I.absent-label', 'LocMap.loc_to_iloc')
 B('SEL-slice-none-passes', ['C04'], 'index.py', 'LocMap.map_slice_args',
@@ -1020,3 +1020,14 @@ B('OS-starred-bounds', ['C05', 'C04'], 'index.py', 'LocMap.loc_to_iloc',
   '            return slice(start, stop, step)\n', '            return slice(*(start, stop, step)[:0], *cls.map_slice_args(label_to_pos.get, key, labels, offset))\n', 'I.offset-open-slice-bounded', 'loc_to_iloc')
 N('OS-open-start-ifexp', ['C05', 'C04'], 'index.py', 'LocMap.loc_to_iloc',
   '                if start is None:\n                    start = offset\n', '                start = offset if start is None else start\n')
+
+# ---------------------------------------------------------------------------------- map-less route rejects negative labels (C04)
+B('NM-element-negative-unchecked', ['C04'], 'index.py', 'Index._loc_to_iloc',
+  '            elif isinstance(key, INT_TYPES):\n                if key < 0:\n                    raise KeyError(key)\n', '', 'I.nomap-negative-label-raises', '_loc_to_iloc')
+B('NM-slice-negative-unchecked', ['C04'], 'index.py', 'Index._loc_to_iloc',
+  '                for attr in (key.start, key.stop): #type: ignore\n                    if isinstance(attr, INT_TYPES) and attr < 0:\n                        raise LocInvalid(\'Invalid loc given in a slice\', attr)\n',
+  '', 'I.nomap-negative-label-raises', '_loc_to_iloc')
+B('NM-list-negative-passes', ['C04'], 'index.py', 'Index._loc_to_iloc',
+  '                    if isinstance(k, INT_TYPES) and k < 0:\n                        raise KeyError(k)\n', '                    pass\n', 'I.nomap-negative-label-raises', '_loc_to_iloc')
+N('NM-element-zero-gt', ['C04'], 'index.py', 'Index._loc_to_iloc',
+  '                if key < 0:\n                    raise KeyError(key)\n', '                if 0 > key:\n                    raise KeyError(key)\n')
